@@ -59,6 +59,15 @@ def cells(tier):
             continue
         out.append(dict(obs=f"{kind}_{fl}", process=proc, fns=fns, nfff=nfff, nf=nf, pto=pto, pto_evol=pe,
                         projectile="neutrino" if proc == "CC" else "electron", ren_sv=sv, fact_sv=sv))
+    # the nucleus enters through the rotation only: target-mass corrections and the mass-dependent cross sections stay per nucleon
+    for kind, tmc, (fns, nfff, nf) in itertools.product(["F2", "FL", "F3"] if tier == "quick" else ["F2", "FL", "F3", "g1"], [1, 2, 3],
+                                                        [("ZM-VFNS", 4, 4)] if tier == "quick" else [("ZM-VFNS", 4, 4), ("FFNS", 3, None)]):
+        if tier == "quick" and tmc == 3 and kind != "F2":
+            continue
+        out.append(dict(obs=f"{kind}_total", process="NC", fns=fns, nfff=nfff, nf=nf, pto=1, pto_evol=1, tmc=tmc, projectile="electron", ren_sv=False, fact_sv=False))
+    for xs_kind, proc, projectile in (("XSCHORUSCC", "CC", "neutrino"), ("XSNUTEVNU", "CC", "antineutrino"), ("FW", "CC", "neutrino"), ("XSHERANC", "NC", "positron"),
+                                      ("XSFPFCC", "CC", "neutrino"), ("F1", "NC", "electron")):
+        out.append(dict(obs=f"{xs_kind}_total", process=proc, fns="ZM-VFNS", nfff=4, nf=4, pto=1, pto_evol=1, projectile=projectile, kin_y=True, ren_sv=False, fact_sv=False))
     return out
 
 
